@@ -46,7 +46,8 @@ def cases(tier, seed, i, n):
             for h in hs:
                 for rep in range(1 if tier == 'quick' else 3):
                     yield dict(p=p, r=r, t=t, c=c, h=h, hseed=rnd.randrange(1 << 30))
-        for _ in range(1500 if tier == 'quick' else 30000):
+        yield gen.mark('full grid poll x ping_rate x ping_timeout x close_timeout (3x5x5x4)')
+        for _ in range(4000 if tier == 'quick' else 1500000):
             yield dict(p=rnd.choice(POLLS + (0.25, 1.0, 3.0)), r=rnd.choice(RATES + (0.5, 2.0)),
                        t=rnd.choice(PTIMEOUTS + (0.4, 2.0)), c=rnd.choice(CTIMEOUTS + (0.5, 2.0)),
                        h=rnd.choice(HIST), hseed=rnd.randrange(1 << 30))
